@@ -76,12 +76,14 @@ def run(prog, ctx):
                     dep = True
                 if x[0] == "call" and x[1][0] == "a" and x[1][1] == ("n", other) and x[1][2] in SCALING_GETTERS:
                     dep = True
-    ctx.floor("C18.D1", len(raises), 1, "raise statements in DataSet.concatenate")
-    ctx.check(dep, "C18.D1", R.key_of(conc, "refusal-depends-on-other-scaling"), conc.loc(raises[-1].ast) if raises else conc.loc(),
-              "a refusal in concatenate is guarded by a comparison of self's scaling with the other data set's scaling",
-              "no refusal in concatenate depends on a scaling attribute of `%s`: the scaling test is applied to an object whose "
-              "scaling attributes were copied from self (self is compared with itself), so data sets with different scalings "
-              "are concatenated silently; guards seen: %s" % (other, seen_guards[:5]))
+    ctx.check(bool(raises), "C18.D1", R.key_of(conc, "refusal-present"), conc.loc(),
+              "concatenate can refuse (raises)", "DataSet.concatenate no longer refuses anything: it contains no reachable raise statement")
+    if raises:
+        ctx.check(dep, "C18.D1", R.key_of(conc, "refusal-depends-on-other-scaling"), conc.loc(raises[-1].ast) if raises else conc.loc(),
+                  "a refusal in concatenate is guarded by a comparison of self's scaling with the other data set's scaling",
+                  "no refusal in concatenate depends on a scaling attribute of `%s`: the scaling test is applied to an object whose "
+                  "scaling attributes were copied from self (self is compared with itself), so data sets with different scalings "
+                  "are concatenated silently; guards seen: %s" % (other, seen_guards[:5]))
 
     # ------------------------------------------------------------------ D2
     carried = set()
